@@ -28,7 +28,7 @@ class Recorder(object):
     def evaluate(self, fn, kind, x):
         if self.fault_at is not None and self.nevals == self.fault_at:
             self.nevals += 1
-            raise InjectedFault('evaluation %d of %r' % (self.fault_at, fn))
+            raise (FAULT_CLASS[0] or InjectedFault)('evaluation %d of %r' % (self.fault_at, fn))
         v = self.value(fn, kind, self.nevals)
         self.nevals += 1
         self.events.append(('eval', fn, kind, float(x), v))
@@ -38,6 +38,7 @@ class Recorder(object):
 
 class InjectedFault(Exception):
     pass
+FAULT_CLASS = [None]     # the exception class the next injected fault raises (None: InjectedFault); p_c17 also injects StopIteration
 
 class RecFn(object):
     """callable without .deriv"""
